@@ -279,7 +279,7 @@ def fn_shape(fn, F):
     return txt
 
 
-def eval_small(e, env, depth=0):
+def eval_small(e, env, depth=0, hook=None):
     """value of an integer/bool expression that depends only on the parameters in env (finite-domain case analysis of a
     selector such as the SM3 round index); None when anything else is involved"""
     from .prov import strip, const_int
@@ -289,23 +289,27 @@ def eval_small(e, env, depth=0):
     v = const_int(e) if e.k == 'const' else None
     if v is not None:
         return v
+    if hook is not None:
+        hv = hook(e)
+        if hv is not None:
+            return hv
     if e.k == 'param':
         return env.get(e.name)
     if e.k == 'cast' and e.args:
-        return eval_small(e.args[0], env, depth + 1)
+        return eval_small(e.args[0], env, depth + 1, hook)
     if e.k == 'field' and e.name == '0' and e.args and strip(e.args[0]).k == 'binop' and strip(e.args[0]).name.endswith('WithOverflow'):
-        return eval_small(e.args[0], env, depth + 1)
+        return eval_small(e.args[0], env, depth + 1, hook)
     if e.k == 'unop' and e.name == 'Not' and e.args:
-        a = eval_small(e.args[0], env, depth + 1)
+        a = eval_small(e.args[0], env, depth + 1, hook)
         if a is None:
             return None
         return (not a) if (e.ty or '').strip() == 'bool' or a in (True, False) else None
     if e.k == 'phi':
-        vals = {eval_small(a, env, depth + 1) for a in e.args}
+        vals = {eval_small(a, env, depth + 1, hook) for a in e.args}
         return vals.pop() if len(vals) == 1 else None
     if e.k == 'binop' and len(e.args) == 2:
-        a = eval_small(e.args[0], env, depth + 1)
-        b = eval_small(e.args[1], env, depth + 1)
+        a = eval_small(e.args[0], env, depth + 1, hook)
+        b = eval_small(e.args[1], env, depth + 1, hook)
         if a is None or b is None:
             return None
         n = e.name.replace('WithOverflow', '')
